@@ -19,6 +19,9 @@ for p in LOCKS:
 # configurations that are part of the quick tier as well: the build without the spin-lock hint (what CMake selects on a
 # machine without <x86intrin.h>) compiles CPP_UTILITY_SPINLOCK_HINT to nothing, which changes the statement structure
 QUICK_CONFIGS = {p: [('no spinlock hint', ['CPP_UTILITY_HAS_SPINLOCK_HINT=OFF'])] for p in LOCKS}
+# progress depends on the spin helper calling its predicate for every legitimate retry number, 0 ("try once, then back off")
+# included: that configuration is part of the quick tier of C02
+QUICK_CONFIGS['C02'] = QUICK_CONFIGS['C02'] + [('no spin retries', ['CPP_UTILITY_SPINLOCK_RETRY_NUM=0'])]
 
 
 def run_configs(pid, rep, configs):
